@@ -295,3 +295,12 @@ def run(chk):
     chk.rule('R7', "--key=value: the key is the text in front of the '=' and the value starts right behind it "
              "(for every word)", 4)
     c04_cursor.run(chk, prog, rule=None, split_rule='R7')
+    # R8: which following word / rest of the word becomes the value - the value-mode table of C02-R12
+    from . import c02
+    chk.rule('R8', 'a key is paired with the following word / the glued rest according to its value mode '
+             '(exhaustive table, shared with C02-R12)', 12)
+    sub = type(chk)(chk.pid, chk.tier)
+    sub._known = []
+    c02.r12_value_mode_table(sub, prog)
+    for o in sub.obligations:
+        chk.check(o['status'] == 'held', 'R8', o['function'], o['what'], o['where'], o.get('detail', ''))
